@@ -984,6 +984,15 @@ func registerRT() {
 		in.run.trace = append(in.run.trace, fmt.Sprintf("%s=%d", a[0].(string), t.c))
 		return nil
 	}
+	// vDaemons(): goroutines spawned so far (and still parked) are background daemons: never scheduled, never waited for
+	rtIntrinsics["vDaemons"] = func(in *Interp, c *frame, fn *ssa.Function, a []Value) Value {
+		for _, t := range in.threads {
+			if t.parked {
+				t.daemon = true
+			}
+		}
+		return nil
+	}
 	rtIntrinsics["vYield"] = func(in *Interp, c *frame, fn *ssa.Function, a []Value) Value {
 		in.visible("vYield")
 		return nil
